@@ -238,6 +238,17 @@ def budget_level(find):
             if got != exp:
                 find.add2("rt:C14:TargetFitness.is_done", f"TargetFitness({TARGET}).is_done with best fitness {v} (minimize={minimize}) answered {got}, expected {exp}", (0 if v is None else abs(v),))
 
+    # the tolerance is absolute (1e-4) whatever the magnitude of the target: near misses around large and zero targets
+    for tgt, v, exp in ((100.0, 100.004, False), (100.0, 100.00005, True), (5000.0, 5000.3, False), (0.0, 0.00005, True), (0.0, 0.0002, False), (-250.0, -250.00005, True), (-250.0, -250.01, False)):
+        for minimize in (False, True):
+            n_checks += 1
+            try:
+                got = TargetFitness(tgt).is_done(tracker_with(1, v, minimize))
+            except Exception as ex:  # noqa
+                got = f"raised {type(ex).__name__}"
+            if got != exp:
+                find.add2("rt:C14:TargetFitness.is_done", f"TargetFitness({tgt}).is_done with best fitness {v} (minimize={minimize}) answered {got}, expected {exp} (|best - target| < 0.0001)", (abs(tgt), abs(v)))
+
     class Const(SearchBudget):
         def __init__(self, v):
             self.v, self.calls = v, 0
@@ -256,6 +267,67 @@ def budget_level(find):
     return n_checks
 
 
+def tiny_space_searches(find):
+    """Searches over a space with FEWER distinct (hashable) programs than the evaluation budget: the counter must keep growing
+    with every evaluation of a new individual (not with every new program), so each search still stops with n <= total < n + k."""
+    from geneticengine.algorithms.random_search import RandomSearch
+    from geneticengine.algorithms.one_plus_one import OnePlusOne
+    from geneticengine.algorithms.hill_climbing import HC
+    from geneticengine.algorithms.gp.gp import GeneticProgramming
+    from geneticengine.random.sources import NativeRandomSource
+    from geneticengine.representations.api import Representation, RepresentationWithMutation, RepresentationWithCrossover
+
+    class TinyRep(Representation, RepresentationWithMutation, RepresentationWithCrossover):
+        def create_genotype(self, random, **kw):
+            return random.randint(0, 3)
+
+        def genotype_to_phenotype(self, g):
+            return g  # an int: hashable, only 4 distinct programs
+
+        def mutate(self, random, g, **kw):
+            return random.randint(0, 3)
+
+        def crossover(self, random, a, b, **kw):
+            return b, a
+
+    class Runaway(Exception):
+        pass
+
+    class Watch(SearchBudget):
+        def __init__(self, n):
+            self.inner, self.checks = EvaluationBudget(n), 0
+
+        def is_done(self, tracker):
+            self.checks += 1
+            if self.checks > 400:
+                raise Runaway()
+            return self.inner.is_done(tracker)
+
+    n_runs = 0
+    for name, mk, k in (
+        ("RandomSearch", lambda p, b, r: RandomSearch(p, b, TinyRep(), random=r), 1),
+        ("OnePlusOne", lambda p, b, r: OnePlusOne(p, b, TinyRep(), random=r), 1),
+        ("HC", lambda p, b, r: HC(p, b, TinyRep(), random=r, number_of_mutations=3), 3),
+        ("GeneticProgramming", lambda p, b, r: GeneticProgramming(p, b, TinyRep(), random=r, population_size=6), 6),
+    ):
+        for n in (9, 25):
+            n_runs += 1
+            calls = []
+            problem = SingleObjectiveProblem(lambda p_: (calls.append(p_), float(p_))[1])
+            budget = Watch(n)
+            try:
+                alg = mk(problem, budget, NativeRandomSource(n))
+                alg.search()
+                total = alg.tracker.get_number_evaluations()
+                if not (n <= total < n + k) or total != len(calls):
+                    find.add2(f"rt:C14:{name}.tiny_space_count", f"{name} with EvaluationBudget({n}) over 4 distinct hashable programs stopped with {total} counted evaluations and {len(calls)} fitness invocations (expected {n} <= total < {n + k}, total == invocations)", (n,))
+            except Runaway:
+                find.add2(f"rt:C14:{name}.does_not_terminate", f"{name} with EvaluationBudget({n}) over a space of 4 distinct hashable programs is still running after 400 budget checks ({len(calls)} fitness invocations counted so far)", (n,))
+            except Exception as ex:  # noqa
+                find.add2(f"rt:C14:{name}.exception", f"{name} on the tiny space raised {type(ex).__name__}: {str(ex)[:80]}", (n,))
+    return n_runs
+
+
 def run(tier: str, seed: int) -> dict:
     quick = tier != "thorough"
     dl = Deadline(24 if quick else 250)
@@ -263,7 +335,7 @@ def run(tier: str, seed: int) -> dict:
     find = Findings()
     notes = []
     samples = []
-    evaluations = budget_level(find)
+    evaluations = budget_level(find) + tiny_space_searches(find)
     nontrivial = 0
     runs = 0
     complete = True
